@@ -24,8 +24,12 @@ for name in sorted(os.listdir('seeded')):
         p = subprocess.run(['./check', prop, tier], capture_output=True, text=True)
         sigs = sorted({l.split('signature: ')[1] for l in p.stdout.splitlines() if 'signature: ' in l})
         res.append('%s %s rc=%d%s' % (prop, tier, p.returncode, (' [' + sigs[0][:70] + (', +%d' % (len(sigs) - 1) if len(sigs) > 1 else '') + ']') if sigs else ''))
+    own = meta['breaks_property'] + ' quick'
+    if own not in meta['caught_by_checks'] and os.environ.get('SEED_OWN', '1') == '1':
+        p = subprocess.run(['./check', meta['breaks_property'], 'quick'], capture_output=True, text=True)
+        res.append('(own property: %s rc=%d)' % (own, p.returncode))
     subprocess.run(['git', '-C', '/repo', 'checkout', '--', '.'])
-    ok = all(' rc=1' in x for x in res)
+    ok = all(' rc=1' in x for x in res if not x.startswith('(own'))
     rows.append((name, 'caught' if ok else 'NOT CAUGHT BY ALL', '; '.join(res)))
     print(rows[-1], flush=True)
 json.dump(rows, open('/verif/seeded/REGRESSION.json', 'w'), indent=1)
